@@ -8,7 +8,9 @@ pub struct ItemId(pub usize);
 #[derive(Clone, Copy, PartialEq, Eq, Structural)]
 pub struct TypeId(pub ItemId);
 #[verifier::external_body] pub struct FunctionSig { _p: core::marker::PhantomData<()> }
-pub enum TypeKind { Function(FunctionSig), Array(TypeId, usize), Pointer(TypeId), Other }
+pub enum TypeKind { Function(FunctionSig), Array(TypeId, usize), Pointer(TypeId), Comp(CompStub), TemplateAlias(TypeId, Vec<TypeId>), Enum(EnumStub), Alias(TypeId), Other }
+#[verifier::external_body] pub struct CompStub { _p: core::marker::PhantomData<()> }
+#[verifier::external_body] pub struct EnumStub { _p: core::marker::PhantomData<()> }
 #[verifier::external_body] pub struct Type { _p: core::marker::PhantomData<()> }
 impl Type {
     pub uninterp spec fn s_kind(&self) -> TypeKind;
@@ -16,7 +18,8 @@ impl Type {
 }
 #[verifier::external_body] pub struct Item { _p: core::marker::PhantomData<()> }
 impl Item {
-    pub uninterp spec fn s_type(&self) -> Type;
+    // the type of a type item (ItemKind::Type)
+    pub open spec fn s_type(&self) -> Type { self.s_kind().s_as_type().unwrap() }
     // expect_type(): the item is a type item (the signature of a function always is)
     #[verifier::external_body] pub fn expect_type(&self) -> (r: &Type) ensures *r == self.s_type() { unimplemented!() }
 }
@@ -53,9 +56,27 @@ impl Item {
 impl BindgenContext {
     // the id names an item of the table / that item is a type
     pub uninterp spec fn s_exists(&self, id: ItemId) -> bool;
-    pub uninterp spec fn s_is_type(&self, id: ItemId) -> bool;
-    #[verifier::external_body] pub fn resolve_item_fallible(&self, id: ItemId) -> (r: Option<&Item>) ensures r.is_some() == self.s_exists(id) { unimplemented!() }
+    pub open spec fn s_is_type(&self, id: ItemId) -> bool { self.s_item(id).s_kind().s_as_type().is_some() }
+    pub uninterp spec fn s_item(&self, id: ItemId) -> Item;
+    #[verifier::external_body] pub fn resolve_item_fallible(&self, id: ItemId) -> (r: Option<&Item>)
+        ensures r.is_some() == self.s_exists(id), r.is_some() ==> *r.unwrap() == self.s_item(id) { unimplemented!() }
+    // the IR kind of the type item `id` (if it is one)
+    pub open spec fn s_declared_type(&self, id: ItemId) -> bool {
+        self.s_is_type(id) && (self.s_item(id).s_type().s_kind() is Comp || self.s_item(id).s_type().s_kind() is TemplateAlias
+            || self.s_item(id).s_type().s_kind() is Enum || self.s_item(id).s_type().s_kind() is Alias)
+    }
 }
+#[verifier::external_body] pub struct ItemKind { _p: core::marker::PhantomData<()> }
+impl ItemKind {
+    pub uninterp spec fn s_as_type(&self) -> Option<Type>;
+    #[verifier::external_body] pub fn as_type(&self) -> (r: Option<&Type>)
+        ensures r.is_some() == self.s_as_type().is_some(), r.is_some() ==> *r.unwrap() == self.s_as_type().unwrap() { unimplemented!() }
+}
+impl Item {
+    pub uninterp spec fn s_kind(&self) -> ItemKind;
+    #[verifier::external_body] pub fn kind(&self) -> (r: &ItemKind) ensures *r == self.s_kind() { unimplemented!() }
+}
+
 impl ItemId {
     // ItemId::expect_type_id: resolve_item panics on an id without item ("Not an item"), the debug_assert on one that is no type
     #[verifier::external_body] pub fn expect_type_id(&self, ctx: &BindgenContext) -> (r: TypeId)
